@@ -28,6 +28,18 @@
 //!     [.rename_map(..)] [.allow_dead_code(..)].build()` `reps` times, every time from a freshly constructed HashMap, into its
 //!     own OUT_DIR; prints `TGEN <ok|err …|panic …>` and `F tokmap.rs <len> <hash>` per repetition.  Knobs: st=u8|u16|u32,
 //!     adc=0|1, fn=1 (the deprecated free function `ct_token_map`), reps.
+//! `c15 fail`     outcomes of FAILING builds (one line per case; before every case `@@C15CASE` is written to stderr so that the
+//!     caller can cut the diagnostics the builders print there into per-case pieces):
+//!     `Y <kind> <hexsrc>`  the complete error transcript of a yacc source: `FY <valid|invalid>`, per error of
+//!         `ASTWithValidityInfo::errors()` a section `E <hex Debug> <hex Display>` (Debug = kind with its arguments and all spans, in
+//!         order), per warning of `ast().warnings()` a section `W <hex Debug>`, then `G ok | G err <n>` with sections `GE <hex Debug>`
+//!         for what `YaccGrammar::new_with_storaget` returns.
+//!     `X <hexlex>`  a lexer source: `FX ok | FX err <n>` with sections `E <hex Debug> <hex Display>` (LexBuildError: kind + spans).
+//!     `B <kind> <hexsrc> <hexlex|-> <k=v,…|->`  the error STRING of the compile-time builders: `FB ok | FB err <hex text> | FB panic
+//!         <hex msg>` (directory name replaced) and `FILES <names>` = the .rs files left in the output directory.  Knobs: via=l
+//!         (CTLexerBuilder with lrpar_config; default) | p (CTParserBuilder alone), eoc (error_on_conflicts, default 1), wae
+//!         (warnings_are_errors, default 0), sw (show_warnings, default 1), amtl / amtp (allow_missing_*, default 0 / 1).
+//!     `M <hexlex> <NAME=id,…> <k=v,…|->`  a lexer built ALONE from a `rule_ids_map` (names hex) with the same knobs: `FB …` as above.
 //! `c15 threads`  same case line; serialises grammar+table as the generated code does,
 //!     8 threads first-use one `OnceLock`-guarded `_reconstitute` at the same time and
 //!     each parses all inputs on the shared data; every thread must print what the
@@ -463,6 +475,16 @@ fn digest(line: &str) -> String {
         }
         write!(o, " # O {}", parse_outcome_with(&b.grm, &b.st, &toks, RecoveryKind::None)).unwrap();
     }
+    // the same inputs under CPCT+ (tree, per error the complete ordered repairs() list, later errors) where that is a function
+    // of the input; an input that is skipped (clock) is named in an informational section so that the caller can drop it everywhere
+    if plain_table(&b.grm, &b.st) {
+        for (i, toks) in inputs_as_tokens(&b.grm, &c.inputs).iter().enumerate() {
+            match cpct_determined(&b.grm, &b.st, toks) {
+                (Some(out), class, _) => write!(o, " # OC {} tied={} {}", i, if class == RecClass::Tied { 1 } else { 0 }, out.replace('#', "")).unwrap(),
+                (None, _, _) => write!(o, " # IOCSKIP {}", i).unwrap(),
+            }
+        }
+    }
     if let Some(lex) = &c.lex {
         o.push_str(" # ");
         o.push_str(&lexer_transcript(lex, &b.grm));
@@ -844,15 +866,308 @@ fn tokmap(line: &str) -> String {
     }
 }
 
+// ---------------------------------------------------------------- fail mode
+
+fn dbg_hex<T: std::fmt::Debug>(x: &T) -> String {
+    hex(&format!("{:?}", x))
+}
+
+fn fail_yacc(kind: &str, src: &str) -> String {
+    use cfgrammar::yacc::ast::ASTWithValidityInfo;
+    let yk = yacckind(kind);
+    let r = catch(std::panic::AssertUnwindSafe(|| {
+        let av = ASTWithValidityInfo::new(yk, src);
+        let mut o = format!("FY {}", if av.is_valid() { "valid" } else { "invalid" });
+        for e in av.errors() {
+            write!(o, " # E {} {}", dbg_hex(e), hex(&format!("{}", e))).unwrap();
+        }
+        match catch(std::panic::AssertUnwindSafe(|| av.ast().warnings())) {
+            Ok(ws) => {
+                for w in ws {
+                    write!(o, " # W {}", dbg_hex(&w)).unwrap();
+                }
+            }
+            Err(_) => o.push_str(" # WPANIC"),
+        }
+        o
+    }));
+    let mut o = match r {
+        Ok(o) => o,
+        Err(m) => format!("FY panic {}", hex(&m)),
+    };
+    match catch(std::panic::AssertUnwindSafe(|| cfgrammar::yacc::YaccGrammar::<u32>::new_with_storaget(yk, src))) {
+        Err(m) => write!(o, " # G panic {}", hex(&m)).unwrap(),
+        Ok(Ok(_)) => o.push_str(" # G ok"),
+        Ok(Err(es)) => {
+            write!(o, " # G err {}", es.len()).unwrap();
+            for e in &es {
+                write!(o, " # GE {}", dbg_hex(e)).unwrap();
+            }
+        }
+    }
+    o
+}
+
+fn fail_lex(lex: &str) -> String {
+    use lrlex::LexerDef;
+    match catch(std::panic::AssertUnwindSafe(|| lrlex::LRNonStreamingLexerDef::<LT>::from_str(lex))) {
+        Err(m) => format!("FX panic {}", hex(&m)),
+        Ok(Ok(_)) => "FX ok".to_string(),
+        Ok(Err(es)) => {
+            let mut o = format!("FX err {}", es.len());
+            for e in &es {
+                write!(o, " # E {} {}", dbg_hex(e), hex(&format!("{}", e))).unwrap();
+            }
+            o
+        }
+    }
+}
+
+fn fail_build(kind: &str, src: &str, lex: Option<&str>, o: &std::collections::HashMap<String, String>) -> String {
+    let yk = yacckind(kind);
+    let n = COUNTER.fetch_add(1, Ordering::SeqCst);
+    let dir = format!("/verif/.work/c15/{}-B{}", std::process::id(), n);
+    std::fs::create_dir_all(&dir).expect("mkdir");
+    let yp = format!("{}/g.y", dir);
+    let lp = format!("{}/g.l", dir);
+    std::fs::write(&yp, src).unwrap();
+    if let Some(l) = lex {
+        std::fs::write(&lp, l).unwrap();
+    }
+    let flag = |k: &str, default: bool| o.get(k).map(|v| v == "1").unwrap_or(default);
+    let (eoc, wae, sw) = (flag("eoc", true), flag("wae", false), flag("sw", true));
+    let via_parser = lex.is_none() || o.get("via").map(|v| v == "p").unwrap_or(false);
+    let r = catch(std::panic::AssertUnwindSafe(|| {
+        if via_parser {
+            CTParserBuilder::<LT>::new()
+                .yacckind(yk)
+                .error_on_conflicts(eoc)
+                .warnings_are_errors(wae)
+                .show_warnings(sw)
+                .grammar_path(yp.clone())
+                .output_path(format!("{}/g.y.rs", dir))
+                .build()
+                .map(|_| ())
+                .map_err(|e| format!("{}", e))
+        } else {
+            let (yp2, dir2) = (yp.clone(), dir.clone());
+            lrlex::CTLexerBuilder::new()
+                .lrpar_config(move |ctp| {
+                    ctp.yacckind(yk)
+                        .error_on_conflicts(eoc)
+                        .warnings_are_errors(wae)
+                        .show_warnings(sw)
+                        .grammar_path(yp2.clone())
+                        .output_path(format!("{}/g.y.rs", dir2))
+                })
+                .lexer_path(lp.clone())
+                .output_path(format!("{}/g.l.rs", dir))
+                .show_warnings(sw)
+                .warnings_are_errors(wae)
+                .allow_missing_terms_in_lexer(flag("amtl", false))
+                .allow_missing_tokens_in_parser(flag("amtp", true))
+                .build()
+                .map(|_| ())
+                .map_err(|e| format!("{}", e))
+        }
+    }));
+    let mut out = match r {
+        Err(m) => format!("FB panic {}", hex(&m.replace(&dir, "<DIR>"))),
+        Ok(Err(e)) => format!("FB err {}", hex(&e.replace(&dir, "<DIR>"))),
+        Ok(Ok(())) => "FB ok".to_string(),
+    };
+    let mut names: Vec<String> = std::fs::read_dir(&dir)
+        .map(|d| d.filter_map(|e| e.ok()).map(|e| e.file_name().to_string_lossy().to_string()).filter(|n| n.ends_with(".rs")).collect())
+        .unwrap_or_default();
+    names.sort();
+    write!(out, " # FILES {}", if names.is_empty() { "-".to_string() } else { names.join(",") }).unwrap();
+    write!(out, " # DIRNAME {}", hex(&dir)).unwrap();
+    std::fs::remove_dir_all(&dir).ok();
+    out
+}
+
+fn fail_lexer_alone(lex: &str, map: &[(String, u32)], o: &std::collections::HashMap<String, String>) -> String {
+    let n = COUNTER.fetch_add(1, Ordering::SeqCst);
+    let dir = format!("/verif/.work/c15/{}-B{}", std::process::id(), n);
+    std::fs::create_dir_all(&dir).expect("mkdir");
+    let lp = format!("{}/g.l", dir);
+    std::fs::write(&lp, lex).unwrap();
+    let flag = |k: &str, default: bool| o.get(k).map(|v| v == "1").unwrap_or(default);
+    let m: std::collections::HashMap<String, u32> = map.iter().cloned().collect();
+    let r = catch(std::panic::AssertUnwindSafe(|| {
+        lrlex::CTLexerBuilder::<LT>::new_with_lexemet()
+            .rule_ids_map(&m)
+            .lexer_path(&lp)
+            .output_path(format!("{}/g.l.rs", dir))
+            .show_warnings(flag("sw", true))
+            .warnings_are_errors(flag("wae", false))
+            .allow_missing_terms_in_lexer(flag("amtl", false))
+            .allow_missing_tokens_in_parser(flag("amtp", true))
+            .build()
+            .map(|_| ())
+            .map_err(|e| format!("{}", e))
+    }));
+    let mut out = match r {
+        Err(m) => format!("FB panic {}", hex(&m.replace(&dir, "<DIR>"))),
+        Ok(Err(e)) => format!("FB err {}", hex(&e.replace(&dir, "<DIR>"))),
+        Ok(Ok(())) => "FB ok".to_string(),
+    };
+    let mut names: Vec<String> = std::fs::read_dir(&dir)
+        .map(|d| d.filter_map(|e| e.ok()).map(|e| e.file_name().to_string_lossy().to_string()).filter(|n| n.ends_with(".rs")).collect())
+        .unwrap_or_default();
+    names.sort();
+    write!(out, " # FILES {}", if names.is_empty() { "-".to_string() } else { names.join(",") }).unwrap();
+    write!(out, " # DIRNAME {}", hex(&dir)).unwrap();
+    std::fs::remove_dir_all(&dir).ok();
+    out
+}
+
+fn fail(line: &str) -> String {
+    eprintln!("@@C15CASE");
+    let mut hs = line.split_whitespace();
+    match hs.next() {
+        Some("Y") => {
+            let kind = hs.next().unwrap_or("O").to_string();
+            fail_yacc(&kind, &unhex(hs.next().unwrap_or("")))
+        }
+        Some("X") => fail_lex(&unhex(hs.next().unwrap_or(""))),
+        Some("B") => {
+            let kind = hs.next().unwrap_or("O").to_string();
+            let src = unhex(hs.next().unwrap_or(""));
+            let lex = match hs.next() {
+                None | Some("-") => None,
+                Some(h) => Some(unhex(h)),
+            };
+            let o = parse_opts(hs.next());
+            fail_build(&kind, &src, lex.as_deref(), &o)
+        }
+        Some("M") => {
+            let lex = unhex(hs.next().unwrap_or(""));
+            let mut map: Vec<(String, u32)> = Vec::new();
+            for kv in hs.next().unwrap_or("").split(',').filter(|x| !x.is_empty()) {
+                match kv.split_once('=') {
+                    Some((k, v)) => map.push((unhex(k), v.parse().unwrap_or(0))),
+                    None => return "BADCASE".to_string(),
+                }
+            }
+            let o = parse_opts(hs.next());
+            fail_lexer_alone(&lex, &map, &o)
+        }
+        _ => "BADCASE".to_string(),
+    }
+}
+
 // -------------------------------------------------------------- threads mode
 
 const NTHREADS: usize = 8;
 
-fn outcomes(d: &ParserData<u32>, inputs: &[Vec<u32>]) -> Vec<String> {
-    inputs
+/// What CPCT+ makes of an input.  `Tied`: some error has >= 2 repair sequences of the first rank (rank = (contains an
+/// %avoid_insert insertion, length): `simplify_repairs`).  Up to /repo ca69cd1^ the applied one among them was chosen by the
+/// iteration order of a randomly seeded HashSet; since ca69cd1 they stay in the order in which the search found them.
+#[derive(Clone, Copy, PartialEq, Eq, Debug)]
+enum RecClass {
+    NoError,
+    UniqueFirst,
+    Tied,
+    NoRepairs,
+    Other,
+}
+
+fn repair_s(r: &lrpar::ParseRepair<Lx, u32>) -> String {
+    match r {
+        lrpar::ParseRepair::Insert(t) => format!("I{}", usize::from(*t)),
+        lrpar::ParseRepair::Delete(l) => format!("D{}", lexeme_index(l)),
+        lrpar::ParseRepair::Shift(l) => format!("S{}", lexeme_index(l)),
+    }
+}
+
+/// parse with CPCT+; the outcome is the tree and per error its position, state and the complete `repairs()` list in order
+fn parse_outcome_cpct(grm: &cfgrammar::yacc::YaccGrammar<u32>, st: &StateTable<u32>, toks: &[u32]) -> (String, RecClass) {
+    let lexer = ReplayLexer::new(toks.to_vec());
+    let r = catch(std::panic::AssertUnwindSafe(|| {
+        let pb = RTParserBuilder::<u32, LT>::new(grm, st).recoverer(RecoveryKind::CPCTPlus);
+        pb.parse_map(
+            &lexer,
+            &|lexeme: Lx| Tree::Term(lexeme.tok_id(), lexeme.span().start(), lexeme.span().len(), lexeme.faulty()),
+            &|ridx, nodes| Tree::Nonterm(u32::from(ridx), nodes),
+        )
+    }));
+    match r {
+        Err(m) => (format!("panic {}", m.replace('\n', " ").replace('#', "")), RecClass::Other),
+        Ok((val, errs)) => {
+            let mut o = String::new();
+            let mut class = if errs.is_empty() { RecClass::NoError } else { RecClass::UniqueFirst };
+            match &val {
+                Some(t) => {
+                    o.push_str("val ");
+                    t.pp(&mut o);
+                }
+                None => o.push_str("noval"),
+            }
+            for e in &errs {
+                match e {
+                    LexParseError::ParseError(e) => {
+                        let rs = e.repairs();
+                        let key = |r: &Vec<lrpar::ParseRepair<Lx, u32>>| {
+                            (r.iter().any(|x| matches!(x, lrpar::ParseRepair::Insert(t) if grm.avoid_insert(*t))), r.len())
+                        };
+                        if rs.is_empty() {
+                            if class != RecClass::Tied {
+                                class = RecClass::NoRepairs;
+                            }
+                        } else if rs.len() >= 2 && key(&rs[0]) == key(&rs[1]) {
+                            class = RecClass::Tied;
+                        }
+                        // the complete repairs() list IN ORDER (the first sequence is the one that was applied)
+                        write!(o, " / err {} {} repairs=", lexeme_index(e.lexeme()), usize::from(e.stidx())).unwrap();
+                        let all: Vec<String> = rs.iter().map(|r| r.iter().map(repair_s).collect::<Vec<_>>().join(".")).collect();
+                        o.push_str(&all.join(","));
+                    }
+                    LexParseError::LexError(_) => {
+                        o.push_str(" / lexerr");
+                        class = RecClass::Other;
+                    }
+                }
+            }
+            (o, class)
+        }
+    }
+}
+
+const BUDGET_VAR: &str = "GRMTOOLS_VERIF_RECOVERY_BUDGET_MS";
+
+/// CPCT+ on a table with conflicts, or with cells settled by precedence, can run without end (recorded findings of the
+/// recovery properties C05-C07): there the comparisons stay with recovery off
+fn plain_table(grm: &cfgrammar::yacc::YaccGrammar<u32>, st: &StateTable<u32>) -> bool {
+    st.conflicts().is_none() && grm.iter_tidxs().all(|t| grm.token_precedence(t).is_none())
+}
+
+/// One CPCT+ parse under a 40 ms budget.  `Some` iff the result is a function of the input: no panic / lex error and the parse
+/// ended within 20 ms, i.e. every recovery ended by itself (exhaustive search), not because the clock ran out.
+fn cpct_determined(grm: &cfgrammar::yacc::YaccGrammar<u32>, st: &StateTable<u32>, toks: &[u32]) -> (Option<String>, RecClass, bool) {
+    std::env::set_var(BUDGET_VAR, "40");
+    let t0 = std::time::Instant::now();
+    let (out, class) = parse_outcome_cpct(grm, st, toks);
+    let fast = t0.elapsed().as_millis() < 20;
+    if class == RecClass::Other || !fast {
+        (None, class, fast)
+    } else {
+        (Some(out), class, fast)
+    }
+}
+
+/// recovery off for every input; CPCT+ in addition for the inputs whose sequential result is determined (`cpct[i]`)
+fn outcomes(d: &ParserData<u32>, inputs: &[Vec<u32>], cpct: &[bool]) -> Vec<String> {
+    let mut v: Vec<String> = inputs
         .iter()
         .map(|t| parse_outcome_with(d.grm(), d.stable(), t, RecoveryKind::None))
-        .collect()
+        .collect();
+    for (t, c) in inputs.iter().zip(cpct.iter()) {
+        if *c {
+            v.push(parse_outcome_cpct(d.grm(), d.stable(), t).0);
+        }
+    }
+    v
 }
 
 fn threads(line: &str) -> String {
@@ -875,12 +1190,65 @@ fn threads(line: &str) -> String {
     // the sequential result: a private reconstitution, parsed in this thread; it must
     // also equal what the original (never serialised) grammar and table give
     let seq_data: ParserData<u32> = _reconstitute(&grm_data, &st_data, config);
-    let seq = outcomes(&seq_data, &inputs);
-    let orig: Vec<String> = inputs.iter().map(|t| parse_outcome_with(&b.grm, &b.st, t, RecoveryKind::None)).collect();
+    // Which inputs have a DETERMINED sequential result under CPCT+?  On a plain table: those whose parse (40 ms budget) ended by
+    // itself — without an error, with errors that have one first-ranked repair sequence, with several (`tied`: since /repo
+    // ca69cd1 the order in which the search found them decides; `C15_TIED=exclude` leaves them out, the setting for the code
+    // before), or without any repair.  The others are counted and left to the recovery-off comparison.
+    let (mut n_noerr, mut n_unique, mut n_tied, mut n_norep, mut n_slow, mut n_other, mut n_notplain) = (0, 0, 0, 0, 0, 0, 0);
+    let mut cpct: Vec<bool> = Vec::new();
+    let mut cpct_first: Vec<String> = Vec::new();
+    let plain = plain_table(&b.grm, &b.st);
+    let no_cpct = std::env::var("C15_NO_CPCT").is_ok(); // development aid: timing without the CPCT+ part
+    let exclude_tied = std::env::var("C15_TIED").map(|v| v == "exclude").unwrap_or(false);
+    for t in &inputs {
+        if !plain || no_cpct {
+            n_notplain += 1;
+            cpct.push(false);
+            continue;
+        }
+        let (out, class, fast) = cpct_determined(&b.grm, &b.st, t);
+        let mut det = out.is_some();
+        match class {
+            RecClass::Other => n_other += 1,
+            _ if !fast => n_slow += 1,
+            RecClass::NoError => n_noerr += 1,
+            RecClass::UniqueFirst => n_unique += 1,
+            RecClass::NoRepairs => n_norep += 1,
+            RecClass::Tied => {
+                n_tied += 1;
+                if exclude_tied {
+                    det = false;
+                }
+            }
+        }
+        cpct.push(det);
+        if det {
+            cpct_first.push(out.unwrap());
+        }
+    }
+    // a budget far above what the determined inputs needed: the clock cannot decide anything in the runs below
+    std::env::set_var(BUDGET_VAR, "8000");
+    let seq = outcomes(&seq_data, &inputs, &cpct);
+    let mut orig: Vec<String> = inputs.iter().map(|t| parse_outcome_with(&b.grm, &b.st, t, RecoveryKind::None)).collect();
+    orig.extend(cpct_first);
     let mut o = String::new();
     write!(o, "THREADS {} inputs={}", NTHREADS, inputs.len()).unwrap();
+    write!(
+        o,
+        " # RC noerr={} unique={} tied={} norepair={} slow={} other={} notplain={}",
+        n_noerr, n_unique, n_tied, n_norep, n_slow, n_other, n_notplain
+    )
+    .unwrap();
     if seq != orig {
-        write!(o, " # SEQ-DIFFERS-FROM-ORIGINAL").unwrap();
+        let i = seq.iter().zip(orig.iter()).position(|(a, b)| a != b).unwrap_or(0);
+        write!(
+            o,
+            " # SEQ-DIFFERS-FROM-ORIGINAL input={} a=[{}] b=[{}]",
+            i,
+            seq.get(i).cloned().unwrap_or_default().replace('#', ""),
+            orig.get(i).cloned().unwrap_or_default().replace('#', "")
+        )
+        .unwrap();
     }
     let rounds = 4;
     let mut bad = 0usize;
@@ -892,9 +1260,11 @@ fn threads(line: &str) -> String {
         let gd = Arc::new(grm_data.clone());
         let sd = Arc::new(st_data.clone());
         let inp = Arc::new(inputs.clone());
+        let cp = Arc::new(cpct.clone());
         let mut hs = Vec::new();
         for _ in 0..NTHREADS {
-            let (data, inits, barrier, gd, sd, inp) = (data.clone(), inits.clone(), barrier.clone(), gd.clone(), sd.clone(), inp.clone());
+            let (data, inits, barrier, gd, sd, inp, cp) =
+                (data.clone(), inits.clone(), barrier.clone(), gd.clone(), sd.clone(), inp.clone(), cp.clone());
             hs.push(
                 std::thread::Builder::new()
                     .stack_size(64 * 1024 * 1024)
@@ -905,7 +1275,7 @@ fn threads(line: &str) -> String {
                             _reconstitute(&gd, &sd, config)
                         });
                         let addr = d as *const ParserData<u32> as usize;
-                        (addr, outcomes(d, &inp))
+                        (addr, outcomes(d, &inp, &cp))
                     })
                     .unwrap(),
             );
@@ -964,6 +1334,7 @@ fn main() {
         "threads" => threads(line),
         "lexgen" => lexgen(line),
         "tokmap" => tokmap(line),
+        "fail" => fail(line),
         _ => "BADMODE".to_string(),
     });
 }
